@@ -291,7 +291,7 @@ func ruleReactRelease(r *core.Reporter) {
 					continue
 				}
 				done = true
-				start := ir.Pt{B: ii.If.Block().Succs[ii.EdgeWhen(true)], I: 0}
+				start := ir.EdgePt(ii.If.Block(), ii.EdgeWhen(true))
 				if ret, bad := ir.PathExists([]ir.Pt{start}, ir.Opts{Stop: isRecv}, ir.IsExit); bad {
 					r.Violated(key, p.InstrPos(ret), "the seed was removed from stateTable but a path returns without releasing its token")
 				} else if once := ir.AtMostOnce(ir.Region{Start: start}, isRecv, ir.Opts{}); !once.OK {
@@ -300,7 +300,7 @@ func ruleReactRelease(r *core.Reporter) {
 					r.Held(key, 1, "loaded==true ⇒ exactly one token released")
 				}
 				// not-found side returns a non-nil error
-				other := ir.Pt{B: ii.If.Block().Succs[ii.EdgeWhen(false)], I: 0}
+				other := ir.EdgePt(ii.If.Block(), ii.EdgeWhen(false))
 				res := ir.Reach([]ir.Pt{other}, ir.Opts{})
 				okErr := true
 				for in := range res.Reached {
